@@ -1046,6 +1046,8 @@ def explore(res, tier, seed, model_ok=True):
     # whatever was written completely before an orderly end is delivered, the run ends with Disconnected (harness/realsock.py, oracle only)
     import realsock
     realsock.explore(res, tier)
+    import gencheck   # differential test of the translated code (Generated/Code.lean: selectorWait) against the original Python
+    gencheck.run(res, 'C18', tier, seed, model_ok)
     cases = corpus() + length_field_cases() + closing_cases(rng, 12 if tier == 'quick' else 150)
     bursts = [TLS_REC - 1, TLS_REC, TLS_REC + 1, 2 * TLS_REC, BUF - 1, BUF, BUF + 1, 2 * BUF - 1, 2 * BUF, 2 * BUF + 1]
     gaps = [0, 6] if tier == 'quick' else [0, 1, 5, 6]
